@@ -909,6 +909,44 @@ func Main(a int) int {
 	)
 }
 
+// What a review of the repairs above found (a regression of the function-value repair, byte arrays left out of the tuple
+// repair); the generated shapes are in side3.go.
+func init() {
+	iarg := func(v int64) []Arg { return []Arg{{T: "int", I: v}} }
+	findings = append(findings,
+		finding{Key: kFuncValueMulti, What: "t.g(pair()), fs[0](pair()): a call through a function value (field, element, parenthesised variable, literal, call result, variable of an imported package) whose argument list is one call with several results faults at CALLA: the function value evaluated first is rolled from the depth len(n.Args), not from the number of items",
+			Src: `package foo
+
+type T struct {
+	g func(a, b int) int
+}
+
+func pair() (int, int) {
+	return 3, 4
+}
+
+func mul(a, b int) int {
+	return a*10 + b
+}
+
+func Main(a int) int {
+	t := T{g: mul}
+	fs := []func(a, b int) int{mul}
+	return t.g(pair()) + fs[0](pair())*100 + a
+}
+`, Fn: "Main", Args: iarg(0), Res: "int", GoWant: "i:3434"},
+		finding{Key: kTupleByteArray, What: "b, b[0] = [3]byte{1, 2, 3}, 7 with b an array of bytes: the Buffer the variable held when the statement started is kept and written, the element assigned after the whole array is lost (the repair of t, t.x = ... left arrays of bytes out)",
+			Src: `package foo
+
+func Main(a int) int {
+	var b [3]byte
+	b, b[0] = [3]byte{1, 2, 3}, 7
+	return int(b[0])*100 + int(b[1])*10 + int(b[2]) + a
+}
+`, Fn: "Main", Args: iarg(0), Res: "int", GoWant: "i:723"},
+	)
+}
+
 // runFinding executes the neo-go side of a reproduction and renders the outcome in the notation of the check.
 func runFinding(f finding) string {
 	nf, di, err, crash := compileProg("finding.go", f.Src)
